@@ -84,6 +84,50 @@ def _close(a, b, rtol):
     return abs(a - b) <= rtol * max(abs(a), abs(b), 1e-300)
 
 
+@bounded('C18', 'history-independence', shards=2)
+def b_history(ctx):
+    """every analyzer is a function of its data: analysing a data set again after other data sets have been analysed in the same process - in particular series
+    with fewer than two mixed load levels, series without run-outs, exact Basquin data - returns the same parameters (added after seed C18-b let a fixed scatter
+    leak from one MaxLikeFull analysis into the following ones through a shared default argument)"""
+    import numpy as np
+    import pandas as pd
+    ctx.bound = "reference data sets synthetic-0..3 x analyzers {Elementary, Probit, MaxLikeInf, MaxLikeFull}; in between: a series with one mixed level, a series without run-outs, exact Basquin data with one run-out level"
+    ctx.rule = "each (data set, analyzer) re-analysis is one case"
+    limit = 1e7
+
+    def basquin(load):
+        return 1e6 * (load / 300.0) ** -5
+
+    one_mixed = pd.DataFrame([(L, basquin(L)) for L in (500.0, 450.0, 400.0, 350.0) for _ in range(2)] + [(300.0, basquin(300.0)), (300.0, limit), (280.0, limit), (280.0, limit)], columns=['load', 'cycles'])
+    no_runout = pd.DataFrame([(L, basquin(L) * f) for L in (500.0, 450.0, 400.0, 350.0) for f in (0.8, 1.25)], columns=['load', 'cycles'])
+    exact = pd.DataFrame([(L, basquin(L)) for L in (600.0, 500.0, 420.0, 360.0) for _ in range(2)] + [(290.0, limit)] * 3, columns=['load', 'cycles'])
+    analyzers = ['Elementary', 'Probit', 'MaxLikeInf', 'MaxLikeFull']
+    data = [d for d in _datasets(ctx)][:4]
+    for idx, (name, df, lim) in enumerate(data):
+        if idx % ctx.nshards != ctx.shard:
+            continue
+        first = {}
+        for an in analyzers:
+            try:
+                first[an] = _analyze(an, df, lim)
+            except Exception as e:   # noqa
+                ctx.count(f'analyzer-raises:{an}:{type(e).__name__}')
+        for other in (one_mixed, no_runout, exact):
+            for an in analyzers:
+                try:
+                    _analyze(an, other, limit)
+                except Exception:   # noqa
+                    ctx.count(f'in-between analysis raises:{an}')
+        for an, ref in first.items():
+            got = _analyze(an, df, lim)
+            ctx.case(True, key=(name, an))
+            bad = [k for k in ('SD', 'k_1', 'ND', 'TN', 'TS') if not _close(float(got[k]), float(ref[k]), 1e-12)]
+            if bad:
+                ctx.fail(f'C18:history:{an}', f'{an} on {name}: analysing the same data again after other analyses changes {bad}: {dict(ref[["SD", "k_1", "ND", "TN", "TS"]])} -> {dict(got[["SD", "k_1", "ND", "TN", "TS"]])}',
+                         {'dataset': name, 'analyzer': an})
+    ctx.sample({'history': ['analyze(synthetic-0)', 'analyze(series with one mixed level)', 'analyze(series without run-outs)', 'analyze(exact Basquin data)', 'analyze(synthetic-0) again']})
+
+
 @bounded('C18', 'equivariance-permutation', shards=8)
 def b_equiv(ctx):
     """load scale c: SD -> c SD, k_1 / TN / TS / ND unchanged; cycle scale c: ND -> c ND, rest unchanged; row permutations change nothing;
